@@ -98,8 +98,10 @@ pub fn check_case(c: &LoopCase) -> Verdict {
         v.dedup();
         v.len() > 1
     };
-    classify(format!("n={}{}{}{}", if n == 0 { "0" } else if n == 1 { "1" } else if n % 2 == 0 { "even" } else { "odd" }, if tie { "/tie" } else { "" }, if sparse { "/sparse" } else { "" }, if t_eff > 1 { "/T>1" } else { "" }));
-    Verdict::pass(n >= 2 && (tie || n % 2 == 0 || sparse || distinct_allocs))
+    // The run ended while the size was still being tuned.
+    let cut = tuned && rounds > 0 && first == rounds - 1 && (0..t_eff).filter_map(|t| tr.round(t, first)).map(|r| conv(r.end, r.start, c.frequency)).max().map(|d| d / (c.precision_ps.max(1) as u128) <= 100).unwrap_or(false);
+    classify(format!("n={}{}{}{}{}", if n == 0 { "0" } else if n == 1 { "1" } else if n % 2 == 0 { "even" } else { "odd" }, if tie { "/tie" } else { "" }, if sparse { "/sparse" } else { "" }, if t_eff > 1 { "/T>1" } else { "" }, if cut { "/cut-while-tuning" } else { "" }));
+    Verdict::pass((n >= 2 && (tie || n % 2 == 0 || sparse || distinct_allocs)) || (cut && size > 1))
 }
 
 fn case() -> impl Strategy<Value = LoopCase> {
@@ -115,11 +117,11 @@ fn case() -> impl Strategy<Value = LoopCase> {
             c02::alloc_steps(3),
             prop_oneof![2 => Just(0u32), 1 => 1u32..=7],
             any::<bool>(),
-            c02::alloc_steps(2),
+            (c02::alloc_steps(2), c02::alloc_masks(), proptest::option::weighted(0.35, prop_oneof![0u32..=40, 0u32..=400, 0u32..=4000])),
         ),
         (proptest::array::uniform4(prop::bool::weighted(0.4)), proptest::array::uniform4(proptest::option::weighted(0.3, prop_oneof![0u64..=100, any::<u64>()])), prop_oneof![Just(1_000_000_000u64), Just(1_000_000_000_000u64), Just(3_000_000_000u64)]),
     )
-        .prop_map(|((entry, input, output, threads, n, s), (call, skew, benched, first, vary, gen), (input_counters, const_counters, frequency))| {
+        .prop_map(|((entry, input, output, threads, n, s), (call, skew, benched, first, vary, (gen, (call_mask, thread_mask), max_ns)), (input_counters, const_counters, frequency))| {
             let mut c = LoopCase::basic(entry, input, output);
             c.threads = threads;
             c.sample_count = Some(n);
@@ -140,11 +142,16 @@ fn case() -> impl Strategy<Value = LoopCase> {
             c.allocs.benched_first_calls = first;
             c.allocs.benched_vary = vary;
             c.allocs.gen = gen;
+            // A time budget that can run out while the size is still being
+            // tuned: the one recorded sample then has the size it ran with.
+            c.max_time = max_ns.map(|ns| (0, ns));
+            c.allocs.benched_call_mask = call_mask;
+            c.allocs.benched_thread_mask = thread_mask;
             c
         })
 }
 
 pub fn groups(g: &mut Groups) {
     PAINT.store(true, std::sync::atomic::Ordering::SeqCst);
-    g.prop("loop", 12_000, 300_000, case(), check_case);
+    g.prop("loop", 18_000, 300_000, || case(), check_case);
 }
